@@ -14,4 +14,20 @@ CHECKS = {
    text="On every enumerated input that is rejected: NULL is returned, nothing stays allocated, every result field is written (result pre-filled with 0xAB), (code, position) is in the reference's admissible set (singleton except for the eager/lazy case the property itself admits), read equals position; every proper prefix of every accepted sequence is additionally checked to be classified NOTENOUGHDATA at the first incomplete head.",
    note=E1_NOTE),
 }
+VAL_NOTE = ("Trusted: reference tokeniser / head encoder / IEEE-754 and UTF-8 routines in harness/vf_ref.c (pinned by ./vf setup), the recording callback table, "
+            "the guard-page buffer (mmap + PROT_NONE), sanitizer instrumentation. 64-bit value domains are covered by stated structured sets, not exhaustively.")
+CHECKS.update({
+ "C08": dict(engine="E1-value-domain", category="exploration", design_ref="DESIGN.md 5/C08",
+   technique="complete enumeration of (initial byte, argument, buffer length) triples against a reference tokeniser, recording callbacks, counting allocator, guard page",
+   text="All 256 initial bytes x all 1- and 2-byte arguments x structured 4/8-byte arguments (2^k, 2^k+-1, width boundaries, top-of-range incl. lengths within 16 of 2^64) x every buffer length 0..head+1 and payload end -1/0/+1: exactly one of FINISHED (one callback, the right slot, exact arguments, payload pointer inside the buffer, read = head+payload) / NEDATA (no callback, read 0, n < required <= pending length as a mathematical integer) / ERROR; 0 allocator requests; same answer when the call is repeated after other calls and when the buffer is cut to exactly `read` bytes.",
+   note=VAL_NOTE),
+ "C10": dict(engine="E1-value-domain", category="exploration", design_ref="DESIGN.md 5/C10",
+   technique="exhaustive enumeration of encoder value domains (8/16-bit, thorough: 32-bit) and structured 64-bit sets, each round-tripped through the real streaming decoder",
+   text="Every cbor_encode_* function on every value of its 8/16-bit domain (32-bit in the thorough tier) and on structured 64-bit sets must write exactly the RFC 8949 head (named width / 8-bit immediate rule / shortest form) into an exactly-sized guard-page buffer, and decoding those bytes must fire the matching callback once with the identical value and consume exactly the bytes written (unassigned simple values: encoded per RFC, decoder reports ERROR).",
+   note=VAL_NOTE),
+ "C15": dict(engine="E1-value-domain", category="exploration", design_ref="DESIGN.md 5/C15",
+   technique="exhaustive enumeration of all 2^16 half patterns (and all 2^32 single patterns in the thorough tier) and sign/exponent-class x boundary-mantissa doubles, compared with integer-arithmetic IEEE-754 conversion",
+   text="Every half pattern, every single pattern (thorough; class x boundary mantissas in quick) and 4096 classes x boundary mantissas of doubles is decoded (stream callback and cbor_load item), compared bit-for-bit with an independent IEEE-754 conversion, re-encoded (cbor_encode_* and cbor_serialize) and required to reproduce the bytes (NaN -> canonical quiet NaN); every single pattern is also fed to cbor_encode_half under UBSan/ASan (totality: 3 bytes, no UB, exact half when one exists).",
+   note=VAL_NOTE),
+})
 PENDING = {}
